@@ -357,6 +357,8 @@ func (e *c23Env) runMemory(t *testing.T, ops []c23Op) c23Run {
 // ---------------------------------------------------------------- generators
 
 var c23Persistent = c23Cfg{Mode: 3, Size: 100, STTL: 3600000}
+var c23Recoverable = c23Cfg{Mode: 2, KeyTTL: 3600000, Size: 100, STTL: 3600000, MTTL: 36000000}
+var c23Ephemeral = c23Cfg{Mode: 1, KeyTTL: 3600000}
 
 type c23Probe struct {
 	name string
@@ -409,6 +411,8 @@ var c23Probes = []c23Probe{
 		c23P("a", "k1", "d1", func(o *c23Op) { o.Ver = 1 << 53 }), c23P("a", "k1", "d2", func(o *c23Op) { o.Ver = 1<<53 + 1 })}},
 	{name: "clear-epoch-reuse", cfg: c23Persistent, ops: []c23Op{
 		{Kind: "stream", Ch: "a", Limit: -1}, {Kind: "clear", Ch: "a"}, {Kind: "stream", Ch: "a", Limit: -1}}},
+	{name: "state-limit0-revision", cfg: c23Persistent, ops: []c23Op{
+		c23P("a", "k1", "d1", nil), {Kind: "state", Ch: "a", Limit: 0, Pos: true, POff: 1, PEpoch: "bogus"}}},
 }
 
 func c23Gen(r *rand.Rand) []c23Op {
@@ -450,6 +454,7 @@ func c23Gen(r *rand.Rand) []c23Op {
 				op.Ver, op.VEp = uint64(1+r.Intn(5)), []string{"", "", "va"}[r.Intn(3)]
 			}
 			op.Delta = r.Intn(6) == 0
+			op.Refresh = r.Intn(4) == 0
 			count[ch]++
 			ops = append(ops, op)
 		case k < 8:
@@ -460,6 +465,9 @@ func c23Gen(r *rand.Rand) []c23Op {
 			}
 			if op.Kind == "rem" && r.Intn(5) == 0 {
 				op.Pos, op.POff, op.PEpoch = true, uint64(r.Intn(count[ch]+2)), tokOf(ch, i)
+			}
+			if op.Kind == "rem" && r.Intn(6) == 0 {
+				op.Idem = []string{"i1", "i2"}[r.Intn(2)]
 			}
 			count[ch]++
 			ops = append(ops, op)
@@ -525,6 +533,9 @@ func c23Tags(cfg c23Cfg, ops []c23Op, mem []c23Res) string {
 			if !exists[op.Ch] && op.Pos && op.PEpoch == "" {
 				t["map-state-missing-channel-empty-revision"] = true
 			}
+			if exists[op.Ch] && op.Key == "" && op.Limit == 0 && op.Pos && i < len(mem) && mem[i].Kind == "unrec" {
+				t["map-state-limit0-revision"] = true
+			}
 		case "stream":
 			if !exists[op.Ch] && op.Pos && op.PEpoch != "" {
 				t["map-stream-missing-channel-since-epoch"] = true
@@ -574,6 +585,12 @@ func TestVerifC23(t *testing.T) {
 			ops, cfg, class = c23Probes[i].ops, c23Probes[i].cfg, "probe:"+c23Probes[i].name
 		} else {
 			ops = c23Gen(r)
+			switch r.Intn(6) {
+			case 0, 1:
+				cfg, class = c23Recoverable, "recoverable-unordered"
+			case 2:
+				cfg, class = c23Ephemeral, "ephemeral-unordered"
+			}
 		}
 		e.cfg = cfg
 		rr := e.runRedis(t, ops)
